@@ -311,4 +311,93 @@ Definition zapply_op_g (fuel : nat) (x : sched) (s : snap) (c : C) (op : bop) (f
   | OImpStrict => zapply_g fuel x s c ZDiff g f
   end.
 
+(** ** Variables, and whole API-call histories on one ZBDD manager *)
+
+(** the loop of [var_edge] / [restrict_base]: don't-care nodes on top of [e] (cf. [zdc_wrap]) *)
+Fixpoint zdc_wrap_a (level cnt : nat) (s : snap) (e : ref) : snap * ref :=
+  match cnt with
+  | O => (s, e)
+  | S k =>
+    let '(s', e') := get_or_insert_a alloc s (level + k) [E e; E e] in
+    zdc_wrap_a level k s' (eref e')
+  end.
+
+(** [var_edge] on a store that allocates with [alloc] (cf. [zvar]) *)
+Definition zvar_a (s : snap) (var : nat) : option (snap * ref) :=
+  match nth_error (s_v2l s) var, zempty s with
+  | Some level, Some lo =>
+    match ztaut s (S level) with
+    | Some hi =>
+      let '(s1, e) := get_or_insert_a alloc s level [E hi; E lo] in
+      Some (zdc_wrap_a 0 level s1 (eref e))
+    | None => None
+    end
+  | _, _ => None
+  end.
+
+(** [not_var_edge] (default of oxidd-core): [not_edge_owned(var_edge(var))] (cf. [znot_var]) *)
+Definition znot_var_g (fuel : nat) (x : sched) (s : snap) (c : C) (var : nat) : zres :=
+  match zvar_a s var with
+  | Some (s1, e) => zapply_not_g fuel x s1 c e
+  | None => None
+  end.
+
+(** [mstep] / [run_ops] of DD/ConfigApply.v for the ZBDD kind (Boolean-function interface) *)
+Record zmstate := mkZM { zm_snap : snap; zm_cache : C; zm_step : nat }.
+
+(** the schedule of the [k]-th call *)
+Variable sch_at : nat -> sched.
+
+Definition zmstep (st : zmstate) (o : mop) : option zmstate :=
+  let s := zm_snap st in
+  let c := zm_cache st in
+  let k := zm_step st in
+  let fuel := S (nlevels s) in
+  let fin (res : zres) (d : N) :=
+    match res with
+    | Some (s', c', r) => Some (mkZM (put s' d r) c' (S k))
+    | None => None
+    end in
+  match o with
+  | MConst d b =>
+    match zconst s b with
+    | Some r => Some (mkZM (put s d r) c (S k))
+    | None => None
+    end
+  | MVar d v neg =>
+    if neg then fin (znot_var_g fuel (sch_at k) s c v) d
+    else
+      match zvar_a s v with
+      | Some (s', r) => Some (mkZM (put s' d r) c (S k))
+      | None => None
+      end
+  | MNot d a =>
+    match hget (s_handles s) a with
+    | Some ea => fin (zapply_not_g fuel (sch_at k) s c (eref ea)) d
+    | None => None
+    end
+  | MBin d o a b =>
+    match hget (s_handles s) a, hget (s_handles s) b with
+    | Some ea, Some eb => fin (zapply_op_g fuel (sch_at k) s c o (eref ea) (eref eb)) d
+    | _, _ => None
+    end
+  | MIte d a b e =>
+    match hget (s_handles s) a, hget (s_handles s) b, hget (s_handles s) e with
+    | Some ea, Some eb, Some ee => fin (zapply_ite_g fuel (sch_at k) s c (eref ea) (eref eb) (eref ee)) d
+    | _, _, _ => None
+    end
+  | MClone d a =>
+    match hget (s_handles s) a with
+    | Some ea => Some (mkZM (put s d (eref ea)) c (S k))
+    | None => None
+    end
+  | MDrop d => Some (mkZM (set_handles s (hdel (s_handles s) d)) c (S k))
+  end.
+
+Definition zostep (st : option zmstate) (o : mop) : option zmstate :=
+  match st with Some x => zmstep x o | None => None end.
+
+Definition zrun_ops (st : zmstate) (ops : list mop) : option zmstate :=
+  fold_left zostep ops (Some st).
+
 End Cfg.
